@@ -8,13 +8,17 @@
                                          `DetailedPlacer::place`   /
 
 IR (lean/ColoVerif/Model/ApiIR.lean): throwIf c / returnIf c / checkNotInUse / assign member /
-setInUse b / call name / scopeGuard / ret / assertC c / paramsCheck / pure text.
+setInUse b / call name / scopeGuard / restoreGuard / ret / assertC c / paramsCheck / pure text.
 
 `scopeGuard` ("from here to the end of the function the in-use flag is set and it is cleared
 on every exit") is emitted only for two shapes, both checked structurally:
   (a) `G g(isInUse_);` where G is a class of this file whose constructor binds a `bool&` member
       to its argument and assigns `true` to it, whose destructor assigns `false` to it, and which
       is neither copyable nor has other members/methods;
+  (a') the same class with a second member `[const] bool p`, initialised from the constructor's
+      argument (the value of the flag on entry), whose destructor assigns `p` to the reference:
+      the re-entrant guard, emitted as `restoreGuard` ("... and on every exit the flag gets back
+      the value it had on entry");
   (b) `isInUse_ = true; try { B } catch (...) { isInUse_ = false; throw; } isInUse_ = false;`
       as the whole remainder of the body.
 Plain `isInUse_ = b;` statements are emitted as `setInUse b` (that is the pre-fix shape: it
@@ -239,40 +243,56 @@ def no_side_effect_expr(n, fn):
 
 
 def guard_class_ok(name, src_rel):
-    """Structural check of an RAII guard class (shape (a) of the module docstring)."""
+    """Structural check of an RAII guard class (shapes (a) and (a') of the module docstring).
+    Returns (IR statement, None) or (None, reason)."""
     recs = [o for o in T.clang_ast(src_rel, name) if o.get("kind") == "CXXRecordDecl" and o.get("name") == name
             and o.get("completeDefinition")]
     if len(recs) != 1:
-        return "class %s not found" % name
+        return None, "class %s not found" % name
     rec = recs[0]
     fields = [c for c in inner(rec) if c.get("kind") == "FieldDecl"]
-    if len(fields) != 1 or qual(fields[0]) != "bool &":
-        return "%s must have exactly one member of type bool&" % name
-    fname = fields[0]["name"]
+    refs = [f for f in fields if qual(f) == "bool &"]
+    saved = [f for f in fields if qual(f) in ("bool", "const bool")]
+    if len(refs) != 1 or len(saved) > 1 or len(refs) + len(saved) != len(fields):
+        return None, "%s must have exactly one member of type bool& and at most one saved bool" % name
+    fname = refs[0]["name"]
+    sname = saved[0]["name"] if saved else None
+    if any(c.get("kind") in ("CXXRecordDecl", "VarDecl", "FriendDecl", "FunctionTemplateDecl") and not c.get("isImplicit")
+           for c in inner(rec)):
+        return None, "%s has nested declarations" % name
+    if any(c.get("kind") == "CXXBaseSpecifier" for c in inner(rec)) or rec.get("bases"):
+        return None, "%s has a base class" % name
     ctors = [c for c in inner(rec) if c.get("kind") == "CXXConstructorDecl" and not c.get("isImplicit")]
     dtors = [c for c in inner(rec) if c.get("kind") == "CXXDestructorDecl" and not c.get("isImplicit")]
     methods = [c for c in inner(rec) if c.get("kind") == "CXXMethodDecl" and not c.get("isImplicit")]
     for m in methods:
         if not (m.get("name") == "operator=" and m.get("explicitlyDeleted")):
-            return "%s has a method %s" % (name, m.get("name"))
+            return None, "%s has a method %s" % (name, m.get("name"))
     live = [c for c in ctors if not c.get("explicitlyDeleted")]
     if len(live) != 1 or len(dtors) != 1:
-        return "%s needs exactly one usable constructor and one destructor" % name
+        return None, "%s needs exactly one usable constructor and one destructor" % name
     copy_deleted = any(c.get("explicitlyDeleted") for c in ctors)
     if not copy_deleted:
-        return "%s must delete its copy constructor" % name
+        return None, "%s must delete its copy constructor" % name
     ctor = live[0]
     parms = [c for c in inner(ctor) if c.get("kind") == "ParmVarDecl"]
     if len(parms) != 1 or qual(parms[0]) != "bool &":
-        return "constructor of %s must take a bool&" % name
-    inits = [c for c in inner(ctor) if c.get("kind") == "CXXCtorInitializer"]
-    if len(inits) != 1 or (inits[0].get("anyInit") or {}).get("name") != fname:
-        return "constructor of %s must bind %s" % (name, fname)
-    iv = strip(inner(inits[0])[0])
-    if not (iv.get("kind") == "DeclRefExpr" and (iv.get("referencedDecl") or {}).get("name") == parms[0]["name"]):
-        return "constructor of %s must bind %s to its argument" % (name, fname)
+        return None, "constructor of %s must take a bool&" % name
+    inits = {(c.get("anyInit") or {}).get("name"): c for c in inner(ctor) if c.get("kind") == "CXXCtorInitializer"}
+    if set(inits) != ({fname, sname} if sname else {fname}):
+        return None, "constructor of %s must initialise exactly its members" % name
 
-    def sole_assign(decl, val):
+    def is_param(n):
+        n = strip(n)
+        return n.get("kind") == "DeclRefExpr" and (n.get("referencedDecl") or {}).get("name") == parms[0]["name"] and \
+            (n.get("referencedDecl") or {}).get("kind") == "ParmVarDecl"
+    if len(inner(inits[fname])) != 1 or not is_param(inner(inits[fname])[0]):
+        return None, "constructor of %s must bind %s to its argument" % (name, fname)
+    if sname and (len(inner(inits[sname])) != 1 or not is_param(inner(inits[sname])[0])):
+        # the value of the flag on entry, read through the constructor's argument before the body runs
+        return None, "constructor of %s must initialise %s from its argument" % (name, sname)
+
+    def sole_assign(decl, ok_rhs):
         body = [c for c in inner(decl) if c.get("kind") == "CompoundStmt"]
         if len(body) != 1 or len(inner(body[0])) != 1:
             return False
@@ -280,12 +300,19 @@ def guard_class_ok(name, src_rel):
         if s.get("kind") != "BinaryOperator" or s.get("opcode") != "=":
             return False
         lhs, rhs = inner(s)
-        return is_this_member(lhs) == fname and strip(rhs).get("kind") == "CXXBoolLiteralExpr" and strip(rhs).get("value") is val
-    if not sole_assign(ctor, True):
-        return "constructor of %s must be `{ %s = true; }`" % (name, fname)
-    if not sole_assign(dtors[0], False):
-        return "destructor of %s must be `{ %s = false; }`" % (name, fname)
-    return None
+        return is_this_member(lhs) == fname and ok_rhs(strip(rhs))
+
+    def lit(val):
+        return lambda r: r.get("kind") == "CXXBoolLiteralExpr" and r.get("value") is val
+    if not sole_assign(ctor, lit(True)):
+        return None, "constructor of %s must be `{ %s = true; }`" % (name, fname)
+    if sname is None:
+        if not sole_assign(dtors[0], lit(False)):
+            return None, "destructor of %s must be `{ %s = false; }`" % (name, fname)
+        return ".scopeGuard", None
+    if not sole_assign(dtors[0], lambda r: is_this_member(r) == sname):
+        return None, "destructor of %s must be `{ %s = %s; }`" % (name, fname, sname)
+    return ".restoreGuard", None
 
 
 def in_use_assign(s):
@@ -352,10 +379,10 @@ def stmts_of(fn, stmts, out, in_loop=False, file_rel=CIRCUIT_CPP):
                     args = inner(ctor) if ctor.get("kind") == "CXXConstructExpr" else []
                     if in_loop or len(args) != 1 or is_this_member(args[0]) != "isInUse_":
                         err("%s: `%s` uses isInUse_ in a shape that is not a scope guard" % (fn.where(), src_text(fn.src, s)))
-                    why = guard_class_ok(cls, file_rel)
+                    stmt, why = guard_class_ok(cls, file_rel)
                     if why:
                         err("%s: %s is not a recognised scope guard: %s" % (fn.where(), cls, why))
-                    out.append(".scopeGuard")
+                    out.append(stmt)
                 else:
                     for e in init:
                         no_side_effect_expr(e, fn)
